@@ -642,6 +642,11 @@ impl Property for C03 {
         let mut sc = std_scenario(seed, &swarm(seed, base, tier), None);
         sc.render = true;
         sc.capture_state = true;
+        // a deadline-style provider keeps reporting cancellation while the report is built; the caller swaps the
+        // runtime between solving and reporting
+        let mut fr = Rng::stream(seed, "c03-flags");
+        sc.cancel_during_render = fr.chance(1, 4);
+        sc.rewrap_before_render = fr.chance(1, 6);
         vec![sc]
     }
     fn judge(&self, sc: &Scenario) -> Verdict {
@@ -748,6 +753,7 @@ impl Property for C04 {
         maybe_chain(seed, &mut sc, 4000);
         sc.render = true;
         sc.cancel_during_render = r.chance(1, 4);
+        sc.rewrap_before_render = r.chance(1, 10);
         vec![sc]
     }
     fn judge(&self, sc: &Scenario) -> Verdict {
